@@ -304,3 +304,36 @@ def origins_ip(P, fn, op, depth=3, _seen=None):
             if o.arg - 1 < len(c2.args):
                 out += origins_ip(P, g, c2.args[o.arg - 1], depth - 1, _seen | {fn.key})
     return out
+
+
+def source_place(fn, op, depth=5):
+    """the first projected place an operand was copied / moved / borrowed from (projections kept), or None"""
+    if op.get("k") not in ("copy", "move"):
+        return None
+    pl = op["pl"]
+    if any(isinstance(e, dict) for e in pl["p"]) or depth == 0:
+        return pl
+    defs = _assign_defs(fn).get(pl["l"], [])
+    if len(defs) != 1:
+        return None
+    rv = defs[0][1]["rv"]
+    if rv["k"] == "use":
+        return source_place(fn, rv["op"], depth - 1)
+    if rv["k"] in ("ref", "copy_for_deref"):
+        if any(isinstance(e, dict) for e in rv["pl"]["p"]):
+            return rv["pl"]
+        return source_place(fn, {"k": "copy", "pl": rv["pl"]}, depth - 1)
+    return None
+
+
+def place_variant_field(pl):
+    """(variant name, field type) when the place projects a field out of an enum variant (downcast), else (None, None)"""
+    if not pl:
+        return (None, None)
+    var = None
+    for e in pl["p"]:
+        if isinstance(e, dict) and "d" in e:
+            var = e["d"]
+        elif isinstance(e, dict) and "f" in e and var is not None:
+            return (var, e.get("ty"))
+    return (None, None)
